@@ -30,7 +30,7 @@ def outJson (defaults : List (String × String)) (op : Op) : Out → Json
 
 def handle : Handler := fun j => do
   let cfg ← j.getObjVal? "cfg"
-  let w0 := init (getBoolD cfg "cache" false) (getBoolD cfg "starlette" false) (← getInt cfg "now")
+  let w0 := init (getBoolD cfg "cache" false) (getBoolD cfg "starlette" false) (← getInt cfg "now") (getBoolD cfg "oauth1" false)
   let defaults : List (String × String) := match cfg.getObjVal? "defaults" with
     | .ok (.obj kvs) => kvs.toList.filterMap fun (k, v) => v.getStr?.toOption.map fun s => (k, s)
     | _ => []
